@@ -24,7 +24,7 @@ META = {
 NATIVE = os.path.join(VERIF, 'native')
 DS_BASE = ['uid', 'euid', 'gid', 'egid', 'username', 'eusername', 'group', 'egroup', 'pid', 'ppid', 'sid', 'tid', 'tid_kernel', 'cwd', 'hostname', 'tty', 'tty_uid', 'tty_username', 'login',
            'env:A', 'env:EQ', 'env:EMPTY', 'env:NOPE', 'env:BIG', 'env_all', 'rpname', 'timestamp', 'timestamp_ms', 'timestamp_us', 'snoopy_version', 'datetime', 'datetime:%s', 'cgroup:0', 'cgroup:4', 'cgroup:memory',
-           'cgroup:name=systemd', 'cgroup:77', 'cgroup:nosuch', 'filename', 'cmdline']
+           'cgroup:name=systemd', 'cgroup:77', 'cgroup:nosuch', 'cgroup:cpu', 'cgroup:cpuset', 'cgroup:cpuse', 'cgroup:mem', 'cgroup:name=system', 'cgroup:pids', 'cgroup:1', 'cgroup:9', 'cgroup:10', 'filename', 'cmdline']
 
 
 def parse_db(path, idcol):
@@ -210,10 +210,10 @@ def check_state(st, out, pw, gr, version):
     expect('filename', '/bin/prog'); expect('cmdline', 'prog arg')
     # cgroup
     cg = unh(f, 'cgroup').decode('latin-1').splitlines()
-    for sel in ('0', '4', '77'):
+    for sel in ('0', '4', '77', '1', '9', '10'):
         want = [l for l in cg if l.startswith(sel + ':')]
         expect('cgroup:' + sel, want[0] if want else '(none)')
-    for sel in ('memory', 'name=systemd', 'nosuch'):
+    for sel in ('memory', 'name=systemd', 'nosuch', 'cpu', 'cpuset', 'cpuse', 'mem', 'name=system', 'pids'):
         want = [l for l in cg if sel in l.split(':')[1].split(',')]
         expect('cgroup:' + sel, want[0] if want else '(none)')
     return bad
